@@ -25,6 +25,11 @@ type mutant struct {
 	Silent bool   `json:"silent"` // behaviour-preserving edit: no violation may be reported
 	Quick  bool   `json:"quick"`  // part of the quick tier
 	Why    string `json:"why"`
+	More   []struct {
+		File string `json:"file"` // default: the same file
+		Old  string `json:"old"`
+		New  string `json:"new"`
+	} `json:"more,omitempty"` // further replacements of the same edit (a refactoring touches several places)
 }
 
 func loadMutants(prop string) []mutant {
@@ -49,7 +54,25 @@ func overlayFor(repo string, m mutant) (map[string][]byte, error) {
 	if strings.Count(string(src), m.Old) != 1 {
 		return nil, fmt.Errorf("pattern occurs %d times", strings.Count(string(src), m.Old))
 	}
-	return map[string][]byte{p: []byte(strings.Replace(string(src), m.Old, m.New, 1))}, nil
+	out := map[string][]byte{p: []byte(strings.Replace(string(src), m.Old, m.New, 1))}
+	for _, e := range m.More {
+		q := p
+		if e.File != "" {
+			q = filepath.Join(repo, e.File)
+		}
+		cur, ok := out[q]
+		if !ok {
+			cur, err = os.ReadFile(q)
+			if err != nil {
+				return nil, err
+			}
+		}
+		if strings.Count(string(cur), e.Old) != 1 {
+			return nil, fmt.Errorf("additional pattern occurs %d times", strings.Count(string(cur), e.Old))
+		}
+		out[q] = []byte(strings.Replace(string(cur), e.Old, e.New, 1))
+	}
+	return out, nil
 }
 
 func main() {
